@@ -5,7 +5,7 @@ import itertools
 import random
 from typing import Any, Dict, Iterator, List
 
-USER = ["a", "b", "c"]
+USER = ["a", "b", "_c"]
 POOL = [1, 2, 3, 4, 5, 6, 7, 8, 9, 10, 11, 12, 13, 14, 15, 16, 17, 18, 19, 20, 21, 27, 28, 40, 41, 42, 43, 44, 46, 47, 45, 51]
 MODES = ["ok", "fail", "fail", "failb", "nores", "requeue"]
 
@@ -61,6 +61,8 @@ def gen_hist(seed: int, n: int) -> List[Dict[str, Any]]:
                 ops.append(rng.choice([["run_last", rng.choice(MODES)], ["run", rng.randint(1, max(1, sent + 2)), rng.choice(MODES)]]))
         for _ in range(rng.randint(0, 5)):
             ops.append(["run_last", rng.choice(MODES)])
+        if len(out) % 6 == 4:                    # a send whose argument cannot be serialised
+            ops.insert(rng.randint(0, len(ops)), ["kiqbad", rng.randint(1, 3)])
         if len(out) % 3 == 1:                    # at-least-once delivery: some message is handed to the worker a second time
             ran = [o for o in ops if o[0] == "run"]
             if ran:
